@@ -179,7 +179,9 @@ func script(r *simrt.Rand, i int, m Msg) []Op {
 			return until("nonce_expiry", r.Range(3, 120), r.Intn(1000))
 		}
 	}
-	smallWait := func() Op { return Op{Op: "wait", Ref: "sec", RefMsg: i, Sec: r.Intn(3), Ms: r.Intn(1000), Sleep: r.Chance(30)} }
+	smallWait := func() Op {
+		return Op{Op: "wait", Ref: "sec", RefMsg: i, Sec: r.Intn(3), Ms: r.Intn(1000), Sleep: r.Chance(30)}
+	}
 	var ops []Op
 	switch r.Intn(8) {
 	case 0: // immediate replay
@@ -226,6 +228,9 @@ func genC26(r *simrt.Rand, tier string) any {
 		enabled = []string{allTypes[r.Intn(len(allTypes))]}
 	}
 	nm := 1 + r.Intn(4)
+	if tier == "thorough" && r.Chance(50) {
+		nm = 3 + r.Intn(4) // more requests: more eviction sweeps and interleavings per run
+	}
 	scripts := make([][]Op, nm)
 	for i := 0; i < nm; i++ {
 		m := Msg{Type: enabled[r.Intn(len(enabled))], Sender: r.Intn(2)}
@@ -535,6 +540,9 @@ func runC26(planAny any, cfg simrt.Config) *simkit.Outcome {
 			switch {
 			case a2.startSim < a1.endSim && a1.startSim < a2.endSim:
 				circ = "concurrent-duplicates"
+			case a2.endWall-a1.startWall >= ttl && a2.startWall-ms.rq.ts*int64(time.Second) >= int64(max(a2.tol, calib.types[typ].Tol))+int64(time.Second):
+				// the replay was outside the window as well (also reported as stale-accepted)
+				circ = "nonce-retention-expired-outside-window"
 			case a2.endWall-a1.startWall >= ttl && a2.startWall-ms.rq.ts*int64(time.Second) > int64(max(a2.tol, calib.types[typ].Tol)):
 				// the replay arrived in the last (partial) second in which the
 				// second-granular freshness check still passes
